@@ -7,6 +7,10 @@
 #include <asmjit/support/arena.h>
 #include <asmjit/support/support.h>
 
+#ifdef ASMJIT_VERIF
+extern "C" { bool (*asmjit_verif_arena_fail)(void) = nullptr; }
+#endif
+
 ASMJIT_BEGIN_NAMESPACE
 
 // Arena - Globals
@@ -312,6 +316,13 @@ char* Arena::sformat(const char* fmt, ...) noexcept {
 // =============================
 
 void* Arena::_alloc_reusable(size_t size, Out<size_t> allocated_size) noexcept {
+#ifdef ASMJIT_VERIF
+  // Verification hook H1 (see arena.h).
+  if (asmjit_verif_arena_fail && asmjit_verif_arena_fail()) {
+    return nullptr;
+  }
+#endif
+
   // Use the memory pool only if the requested block has a reasonable size.
   size_t slot;
   if (_get_reusable_slot_index(size, Out(slot), allocated_size)) {
